@@ -485,12 +485,23 @@ fn job_task(command: ArcCommand, mut receiver: PriorityReceiver, done: Flag, env
         // when the job task ends (Delete, or every handle dropped and nothing running) the job's `gone` flag is raised, which resolves
         // every outstanding ticket of the job (Ticket::poll watches job_gone)
         final(env).raised@.contains(done.id), // OBL:C07+C09.job_task.gone_raised_when_the_task_ends
+//@ prologue
+let ghost mut told_to_end = false;
 //@ loop 0
+invariant_except_break
+    // a handler that says Break (Delete was processed) ends the job task at once: no further iteration, so `gone` is raised and quit tasks can join
+    !told_to_end, // OBL:C07+C08+C09.job_task.ends_as_soon_as_a_handler_says_break
 invariant
     wf_rx(&receiver), // OBL:C10.job_task.receiver_wellformed
     inv_live(&command_state, env), // OBL:C04+C05.job_task.at_most_one_live_child_at_every_iteration
     inv_restart(stop_timer, on_end_restart, env), // OBL:C07.job_task.restart_ticket_covered_at_every_iteration
     senders_ok(env.urgent@, env.high@), // OBL:C06.job_task.urgent_and_high_queues_hold_only_their_classes
+//@ hint 0 after `Loop::Break => {`
+proof { told_to_end = true; }
+//@ hint 1 after `Loop::Break => {`
+proof { told_to_end = true; }
+//@ hint? 2 after `Loop::Break => {`
+proof { told_to_end = true; }
 //@ end
 
 //@ item control_groups_cover
